@@ -491,6 +491,44 @@ fn combo_case(src: &mut Src, bs: &[i128]) -> Case {
     }
 }
 
+
+/// ranges with open ends (X.680 51.4.2: `lo<..hi`, `lo..<hi`, `lo<..<hi`): the permitted set
+/// loses the end itself. The spellings the compiler rejects are counted, not judged.
+fn open_range_leg(ctx: &mut Ctx) {
+    let bs = boundary_set();
+    let mut upper_open = vec![];
+    let mut others = vec![];
+    for (k, &lo) in bs.iter().enumerate() {
+        for &hi in bs.iter().skip(k) {
+            if hi - lo < 3 || lo < -(1i128 << 100) || hi > (1i128 << 100) {
+                continue;
+            }
+            for (form, plo, phi) in [(1u8, lo, hi - 1), (2, lo + 1, hi), (3, lo + 1, hi - 1)] {
+                let text = match form {
+                    1 => format!("({lo}..<{hi})"),
+                    2 => format!("({lo}<..{hi})"),
+                    _ => format!("({lo}<..<{hi})"),
+                };
+                let iv = vec![(Some(plo), Some(phi))];
+                for pos in [Pos::Combo, Pos::ComboComponent, Pos::ComboElement] {
+                    let c = Case { pos, lo: None, hi: None, ext: false, x: None, combo: Some((text.clone(), iv.clone(), false, iv.clone())) };
+                    if form == 1 { upper_open.push(c) } else { others.push(c) }
+                }
+            }
+        }
+    }
+    ctx.class_n("leg:open-range-ends (upper end open)", upper_open.len() as u64);
+    run_cases(ctx, upper_open);
+    // one probe decides whether the lower-open spelling is accepted at all
+    let probe = module_text(&others[..1]);
+    if matches!(comp::compile_rasn1(&probe, &Cfg::default()), Outcome::Ok(_)) {
+        ctx.class_n("leg:open-range-ends (lower end open)", others.len() as u64);
+        run_cases(ctx, others);
+    } else {
+        ctx.class_n("open-range-ends:lower-open spelling rejected by the compiler (not judged)", others.len() as u64);
+    }
+}
+
 pub fn run(tier: Tier, seed: u64, replay: Option<String>) -> i32 {
     let mut ctx = Ctx::new("C06", tier, seed);
     ctx.rule = "exhaustive over all (lower, upper) pairs of the 53-point boundary set {MIN, MAX, 0, +-1, +-2^k, +-2^k+-1 : k in 7,8,15,16,31,32,63,64}, \
@@ -598,6 +636,7 @@ pub fn run(tier: Tier, seed: u64, replay: Option<String>) -> i32 {
     ctx.sample(json!(case_text(0, &rnd[0])));
     ctx.extra.insert("random_combinations".into(), json!(rnd.len()));
     run_cases(&mut ctx, rnd);
+    open_range_leg(&mut ctx);
     ctx.finish()
 }
 
